@@ -685,3 +685,152 @@ Proof.
   { rewrite Forall_forall in Hts. apply Hts. rewrite Hu. apply in_or_app. right. left. reflexivity. }
   destruct (tok_at_span t k Hin) as (c0 & r0 & a & b & _ & _ & _ & ->). cbn [bind]. eauto.
 Qed.
+
+(* the class is not empty: the pinned code panics (debug build) *)
+Theorem parse_text_refuted :
+  exists t, known_C06 t = true /\ parse_text t = Panic P_I32_OVERFLOW.
+Proof.
+  (* #d1/-2147483648 *)
+  exists [35; 100; 49; 47; 45; 50; 49; 52; 55; 52; 56; 51; 54; 52; 56].
+  split; vm_compute; reflexivity.
+Qed.
+
+Theorem parse_text_total_stmt_false : ~ parse_text_total_stmt.
+Proof.
+  intros H. destruct parse_text_refuted as (t & _ & Hp).
+  destruct (H t) as [(d & r & H1)|(e & H1)]; congruence.
+Qed.
+
+(* once [rational_ok] holds for every text (after the repair of parse_rational) the
+   class is empty and the full statement follows: nothing else has to be redone *)
+Lemma known_C06_empty :
+  (forall sp r, In r [2; 8; 10; 16]%Z -> rational_ok sp r) -> forall t, known_C06 t = false.
+Proof.
+  intros Hok t. unfold known_C06. destruct (scan t) as [ts| | |]; try reflexivity.
+  assert (Hrp : forall sp, rational_panics sp = false).
+  { intros sp. unfold rational_panics.
+    destruct (existsb _ _) eqn:E; [|reflexivity]. apply existsb_exists in E as (r & Hin & Hr).
+    destruct (parse_rational Debug sp r) eqn:Ep; try discriminate. exfalso. eapply Hok; eassumption. }
+  induction ts as [|k r IH]; cbn [prefixed_panics]; [reflexivity|].
+  rewrite IH, Bool.orb_false_r. destruct (ttype_eqb (t_ty k) TNumPrefix); [|reflexivity].
+  destruct r as [|k' r']; [reflexivity|]. destruct (tok_span t k'); try reflexivity. apply Hrp.
+Qed.
+
+Theorem parse_text_total_of_rational_ok :
+  (forall sp r, In r [2; 8; 10; 16]%Z -> rational_ok sp r) -> parse_text_total_stmt.
+Proof. intros Hok t. apply parse_text_total, known_C06_empty, Hok. Qed.
+
+(* ====================================================================== F *)
+(* the remaining text of a successful [parse_text] is again outside the class, and
+   shorter: what the datum-by-datum loop of the front ends needs.
+   [lexT l xs]: the token types and token texts of [l], independent of offsets. *)
+Inductive lexT : text -> list (ttype * text) -> Prop :=
+| lt_nil : lexT [] []
+| lt_skip c r a b xs : lex1 c r = SSkip a b -> lexT b xs -> lexT (c :: r) xs
+| lt_tok c r ty a b xs : lex1 c r = STok ty a b -> lexT b xs -> lexT (c :: r) ((ty, a) :: xs).
+
+Lemma lexT_det l xs : lexT l xs -> forall xs', lexT l xs' -> xs = xs'.
+Proof.
+  induction 1 as [|c r a b xs E Hl IH|c r ty a b xs E Hl IH]; intros xs' H'; inversion H'; subst;
+    try congruence.
+  - match goal with H1 : lex1 c r = SSkip ?a' ?b' |- _ => rewrite E in H1; injection H1 as <- <- end. auto.
+  - match goal with H1 : lex1 c r = STok ?ty' ?a' ?b' |- _ => rewrite E in H1; injection H1 as <- <- <- end.
+    f_equal. auto.
+Qed.
+
+Definition tok_is (T : text) (k : token) (x : ttype * text) : Prop :=
+  t_ty k = fst x /\ tok_span T k = Ok (snd x).
+
+Lemma lexes_spans o l ts : lexes o l ts -> forall pre0, o = blen pre0 ->
+  exists xs, lexT l xs /\ Forall2 (tok_is (pre0 ++ l)) ts xs.
+Proof.
+  induction 1 as [o|o c r a b ts E Hl IH|o c r ty a b ts E Hl IH]; intros pre0 Ho.
+  - exists []. split; constructor.
+  - pose proof (lex1_skip _ _ _ _ E) as (E' & _ & _).
+    destruct (IH (pre0 ++ a)) as (xs & Hx & Hf); [rewrite blen_app; lia|].
+    exists xs. split; [eapply lt_skip; eassumption|]. rewrite E'. rewrite <- app_assoc in Hf. exact Hf.
+  - pose proof (lex1_tok _ _ _ _ _ E) as (E' & Ha).
+    destruct (IH (pre0 ++ a)) as (xs & Hx & Hf); [rewrite blen_app; lia|].
+    exists ((ty, a) :: xs). split; [eapply lt_tok; eassumption|].
+    constructor; [|rewrite E'; rewrite <- app_assoc in Hf; exact Hf].
+    split; [reflexivity|]. cbn [snd].
+    assert (Hk : tok_at (pre0 ++ c :: r) (mk_token o (o + blen a) ty)).
+    { exists pre0, c, r, a, b. cbn [t_ty t_start t_end]. repeat split; auto; lia. }
+    destruct (tok_at_span _ _ Hk) as (c1 & r1 & a1 & b1 & E1 & _ & Hs & _).
+    rewrite Hs. f_equal.
+    (* the step found by tok_at_span is the one at hand *)
+    destruct Hk as (pre2 & c2 & r2 & a2 & b2 & Ht & E2 & Hs2 & He2).
+    clear - Hs E E' Ho Ha. unfold tok_span, slice in Hs. cbn [t_start t_end] in Hs.
+    destruct (o + blen a <? o) eqn:Elt; [lia|]. subst o. rewrite take_bytes_app in Hs.
+    replace (blen pre0 + blen a - blen pre0) with (blen a) in Hs by lia.
+    rewrite E', take_bytes_app in Hs. injection Hs as <-. reflexivity.
+Qed.
+
+Lemma lexes_split o l ts : lexes o l ts -> forall pre0 u k r, o = blen pre0 -> ts = u ++ k :: r ->
+  exists pre s xs, l = pre ++ s /\ t_start k = blen pre0 + blen pre /\ (u <> [] -> pre <> []) /\
+    lexT s xs /\ Forall2 (tok_is (pre0 ++ l)) (k :: r) xs.
+Proof.
+  induction 1 as [o|o c r0 a b ts E Hl IH|o c r0 ty a b ts E Hl IH]; intros pre0 u k r Ho Hts.
+  - destruct u; discriminate.
+  - pose proof (lex1_skip _ _ _ _ E) as (E' & Ha & _).
+    destruct (IH (pre0 ++ a) u k r) as (pre & s & xs & Hb & Hst & _ & Hx & Hf);
+      [rewrite blen_app; lia|assumption|].
+    exists (a ++ pre), s, xs. rewrite E', <- app_assoc, Hb.
+    split; [reflexivity|]. split; [rewrite blen_app in *; lia|].
+    split; [intros _; destruct a; [congruence|discriminate]|]. split; [assumption|].
+    rewrite <- app_assoc, Hb in Hf. exact Hf.
+  - pose proof (lex1_tok _ _ _ _ _ E) as (E' & Ha).
+    destruct u as [|x u'].
+    + cbn [app] in Hts. injection Hts as <- <-.
+      destruct (lexes_spans o (c :: r0) _ (lx_tok _ _ _ _ _ _ _ E Hl) pre0 Ho) as (xs & Hx & Hf).
+      exists [], (c :: r0), xs. cbn [app blen t_start].
+      split; [reflexivity|]. split; [lia|]. split; [congruence|]. split; assumption.
+    + cbn [app] in Hts. injection Hts as _ Hts.
+      destruct (IH (pre0 ++ a) u' k r) as (pre & s & xs & Hb & Hst & _ & Hx & Hf);
+        [rewrite blen_app; lia|assumption|].
+      exists (a ++ pre), s, xs. rewrite E', <- app_assoc, Hb.
+      split; [reflexivity|]. split; [rewrite blen_app in *; lia|].
+      split; [intros _; destruct a; [congruence|discriminate]|]. split; [assumption|].
+      rewrite <- app_assoc, Hb in Hf. exact Hf.
+Qed.
+
+Fixpoint pp_x (xs : list (ttype * text)) : bool :=
+  match xs with
+  | [] => false
+  | x :: r =>
+      (ttype_eqb (fst x) TNumPrefix &&
+       match r with x' :: _ => rational_panics (snd x') | [] => false end) || pp_x r
+  end.
+
+Lemma prefixed_panics_pp_x T ts xs : Forall2 (tok_is T) ts xs -> prefixed_panics T ts = pp_x xs.
+Proof.
+  induction 1 as [|k x ts xs [Hty Hsp] Hf IH]; cbn [prefixed_panics pp_x]; [reflexivity|].
+  rewrite IH, Hty. f_equal. f_equal.
+  destruct Hf as [|k' x' ts' xs' [_ Hsp'] _]; [reflexivity|]. rewrite Hsp'. reflexivity.
+Qed.
+
+Theorem parse_text_rest t d s : known_C06 t = false -> parse_text t = Ok (d, Some s) ->
+  known_C06 s = false /\ (length s < length t)%nat.
+Proof.
+  intros Hk H. unfold parse_text in H.
+  apply bind_ok in H as (ts & Hs & H). apply bind_ok in H as ([d0 rest] & Hp & H).
+  destruct rest as [|k rest']; [discriminate|].
+  apply bind_ok in H as (s0 & Hsl & H). injection H as _ <-.
+  unfold known_C06 in Hk. rewrite Hs in Hk.
+  apply (proj1 (parse_good _ t)) in Hp as (used & Hu & Hne & _).
+  pose proof (scan_fuel_lexes _ _ _ _ Hs) as Hlex.
+  destruct (lexes_split _ _ _ Hlex [] used k rest' eq_refl Hu)
+    as (pre & s & xs & Ht & Hst & Hpre & Hx & Hf).
+  cbn [app blen] in *.
+  assert (s0 = s).
+  { unfold slice_from in Hsl. rewrite Hst, Ht in Hsl. replace (0 + blen pre) with (blen pre) in Hsl by lia.
+    rewrite take_bytes_app in Hsl. injection Hsl as <-. reflexivity. }
+  subst s0. split.
+  - unfold known_C06. destruct (scan s) as [ts2| | |] eqn:Hs2; try reflexivity.
+    apply scan_fuel_lexes in Hs2.
+    destruct (lexes_spans _ _ _ Hs2 [] eq_refl) as (xs2 & Hx2 & Hf2). cbn [app] in Hf2.
+    rewrite (prefixed_panics_pp_x _ _ _ Hf2), <- (lexT_det _ _ Hx _ Hx2),
+      <- (prefixed_panics_pp_x _ _ _ Hf).
+    rewrite Hu in Hk. eapply prefixed_panics_app; eassumption.
+  - rewrite Ht. apply app_length_lt. auto.
+Qed.
